@@ -51,6 +51,21 @@ CHECKS = {
          "Same layouts as C02; for every field, initial contents (00, FF, 5A, every single bit; all 256 for 1-byte containers) x candidate values (all of min-2..max+2 for w<=8, boundary alphabet above) as int64_t/uint64_t/ValueType x complete and truncated store: CouldWriteValue iff representable, TryToWrite iff additionally present, afterwards the buffer equals put_bits(before) bit for bit and Read()==v, failure leaves the buffer unchanged. Aliases (incl. through a nested struct) and all add/subtract shapes to depth 2 (thorough 3), direct and chained through writeable virtuals, with [requires] on virtual and target: success iff the unique pre-image exists and is writable, target and virtual read back.",
          "Trusted: cpp/ref_bits.h, affine inverse computed by the generator. Known finding: signed-enum-narrow.",
          "DESIGN.md section 3, C03"),
+ "C04": ("exploration",
+         "deviation-bounded exhaustive program/buffer enumeration with every checked API call, executed under ASan+UBSan with runtime checks enabled",
+         "The C01 program space (<=1 / <=2 deviations; g++, thorough also clang++) x parameter tuples x buffers (cap 1024/4096) on exact-size heap allocations, every 8th buffer also at bases +1..+7 and through MakeAligned...View<8>: all observations, 22 write candidates on every writable field incl. virtuals and array elements, 5 text renderings incl. partial output, UpdateFromText of the produced and 21 malformed texts, TryToCopyFrom/Equals against earlier buffers. The process must exit 0 with empty stderr (no sanitizer report, no EMBOSS_CHECK/DCHECK).",
+         "Trusted: ASan/UBSan of g++ 12 / clang++ 14. The driver follows the documented discipline (Read only when has_x is true and Ok()). Known finding: virtual-write-inverse-overflow.",
+         "DESIGN.md section 3, C04"),
+ "C06": ("exploration",
+         "deviation-bounded exhaustive program/buffer/option enumeration: write-zero-read-write fixpoint in the driver, emitted text parsed and compared with the reference semantics; exhaustive integer codec sweep",
+         "EmbSpace programs (<=1 / <=2 deviations) x every Ok buffer x all 18 re-readable option sets: UpdateFromText(WriteToString(v,o)) into a zeroed buffer succeeds and re-renders identically; the single-line text is parsed and its field set (present, non-Skip), dependency order and values equal refsem. All values of (u)int8/16 and boundary values of (u)int32/64 x 3 bases x grouping round-trip; 30 malformed numbers are rejected with the destination untouched.",
+         "Trusted: vk/refsem.py, the text reader in checks/c06.py. Leniency of DecodeInteger (0X, stray underscores) is not a target. Known finding: signed-enum-narrow.",
+         "DESIGN.md section 3, C06"),
+ "C20": ("model_checking",
+         "explicit-state over (source buffer, destination buffer): all ordered pairs of a constructed buffer set for Equals, all destination lengths and overlap offsets for TryToCopyFrom, on the real generated views under ASan",
+         "EmbSpace programs (<=1 / <=2 deviations) x a buffer set containing equal, covered-bit-differing, padding-only-differing and truncated buffers (every single-byte flip of 12/16 bases): Equals on ALL ordered pairs, both directions, equals the reference logical equality; TryToCopyFrom from every source into destinations of every length 0..L+2 (0xEE-filled): result, copied bytes, untouched tail, destination Ok and Equals source; overlapping copies at offsets -3..+3 behave like memmove.",
+         "Trusted: vk/refsem.py logical_equal; view Ok()/SizeInBytes() as decided by C01 inside the copy oracle. NaN float payloads are unspecified for Equals.",
+         "DESIGN.md section 3, C20"),
 }
 NOT_YET = "check not built yet in this round (planned in DESIGN.md section 3); no claim made"
 
